@@ -5,7 +5,7 @@ import corpus
 
 PROP_FILES = ["props/C07.v"]
 TRANSLATORS = ["tr_lexer.py", "tr_parser_tables.py", "tr_generator_tables.py", "tr_ast.py"]
-TRUSTED = ["CGenerator's visit_* methods are not modelled in Coq at this commit: the round trip itself is decided by the direct oracle on the implementation; the theorems cover the mirrored precedence tables"]
+TRUSTED = ["CGenerator is hand-modelled (coq/model/Generator.v: every visit_* method, _generate_stmt/_decl/_type, indentation state) and tied text-exactly by correspondence; the round trip for all programs is decided by the direct oracle on the implementation, the theorems cover coordinate-independence (all ASTs), the mirrored precedence tables and kernel-computed round trips on the model"]
 ASSUMPTIONS = []
 
 
@@ -39,8 +39,31 @@ def _k1(text, problem):
     return False
 
 
+def gen_corr(su, ctx, ast, text, bad_list):
+    """model generator vs CGenerator, text-exact, both configurations"""
+    if su.model is None:
+        return
+    from pycparser import c_generator
+    from nodecorr import enc_value, from_py, parse_cfg
+    if not hasattr(su, "_cidx"):
+        su._cidx = {n: i for i, (n, _) in enumerate(parse_cfg())}
+    enc = enc_value(from_py(ast), su._cidx)
+    for rp in (0, 1):
+        try:
+            io = "OK" + US + c_generator.CGenerator(reduce_parentheses=bool(rp)).visit(ast) + US + "0"
+        except RecursionError:
+            continue
+        except Exception:
+            io = "CRASH"
+        mo = su.model.raw(" ".join(map(str, [50, rp] + enc)))
+        ctx.traces += 1
+        if io != mo and mo != "FUEL":
+            bad_list.append((text, io, mo, rp))
+
+
 def run(ctx, b, broken):
     su = Suite(ctx, b, broken, "C07")
+    gen_bad = []
     ctx.notes["rule"] = "accepted programs (generator programs, the repository corpus after cpp, accepted token mutants) x both generator configurations; non-trivial = program with >= 1 nested expression and >= 1 non-trivial declarator; distinct by text"
     replay_known(ctx, roundtrip)
     n = 800 if ctx.tier == "quick" else 10000
@@ -55,6 +78,10 @@ def run(ctx, b, broken):
             su.violation(text, bad)
         elif len(ctx.samples) < 3:
             ctx.sample({"text": text[:300]})
+        try:
+            gen_corr(su, ctx, parse_impl_ast(text), text, gen_bad)
+        except Exception:
+            pass
         # accepted mutants
         import props.C06 as C06
         sp = [t[0] + ("\n" if t[2] == "pragma" else "") for t in toks]
@@ -72,4 +99,13 @@ def run(ctx, b, broken):
         bad = roundtrip(text, name)
         if bad:
             su.violation(text if len(text) < 5000 else name, f"{name}: {bad}", filename=name)
+        if len(text) < 200000:
+            try:
+                gen_corr(su, ctx, parse_impl_ast(text, name), name, gen_bad)
+            except Exception:
+                pass
+    if gen_bad:
+        t, io, mo, rp = min(gen_bad, key=lambda d: len(d[0]))
+        broken.append({"kind": "correspondence", "name": f"Generator.v vs CGenerator(reduce_parentheses={bool(rp)})", "input": t,
+                       "implementation": io[:2000], "model": mo[:2000], "count": len(gen_bad)})
     su.finish()
